@@ -1205,7 +1205,7 @@ class Explorer:
         if r == 'unsat':
             self.stats.proved[label] = self.stats.proved.get(label, 0) + 1
             return True
-        if r == 'unknown' and isinstance(cond, bool):
+        if r == 'unknown' and isinstance(cond, bool) and not soft:
             # the obligation is concretely false on this path but the solver could not produce a model of the path
             # condition in time: hand an empty model to the replay, which then runs on default concrete inputs
             cex = {'label': label, 'model': {}, 'decisions': [], 'info': (info or '') + ' [no solver model; replayed on default inputs]',
